@@ -578,6 +578,12 @@ func main() {
 	if r.Replay != "" {
 		var sc scase
 		r.LoadReplay(&sc)
+		if isLeg3(sc.Leg) { // a case of legs3.go (normal tiers)
+			r.Case()
+			runLeg3(sc).report(r, sc)
+			r.Sample(sc)
+			return
+		}
 		if sc.Leg != "" { // a case of a search leg (search.go): regenerated from its parameters
 			r.Case()
 			runSearchCase(sc).report(r, sc)
@@ -611,6 +617,8 @@ func main() {
 		sweep(r, 3, 5)
 		r.Note("bounded sweep: every op sequence of length 4 (capacity 1), 6 (capacity 2) and 5 (capacity 3) over an 11-letter alphabet was run on the real code against the reference")
 	}
+	// key / value types, re-entrant callbacks, word-size arguments, held listings (legs3.go; oracle-only)
+	typeLegs(r)
 	if r.Search {
 		if r.Failed() {
 			r.Note("search legs not run: the thorough generators already produced a failing input")
